@@ -284,7 +284,7 @@ impl Sut {
         match case.via {
             Via::Node => Sut::Node(Box::new(mk_node("L", "R", case.w_ms, case.cond_le))),
             Via::Manager { wm_streams } => {
-                let mut m = StreamJoinManager::new();
+                let mut m = crate::core::new_or_default(StreamJoinManager::new);
                 let sink: Sink = Arc::new(Mutex::new(Vec::new()));
                 let decoy: Sink = Arc::new(Mutex::new(Vec::new()));
                 let s2 = sink.clone();
